@@ -67,6 +67,8 @@ def cbmc_flags(q):
     elif q.checks == 'memsafe':
         # CBMC 6 defaults: bounds, pointer, div-by-zero, signed overflow, undefined shift, ...
         fl += ['--pointer-overflow-check', '--conversion-check']
+    elif q.checks == 'pointer':
+        fl += ['--no-standard-checks', '--pointer-check', '--bounds-check']
     elif q.checks == 'memsafe-noconv':
         fl += ['--pointer-overflow-check']
     if q.solver == 'cadical':
@@ -217,12 +219,20 @@ def classify(res, q):
     res['known'] = kf
     res['n_ok'] = ok
     res['n_reach'] = reach_ok
-    # a failed unwinding assertion or exceeded model bound means the encoding was cut short: the
-    # run has no verdict at all (obligations reported as failed in such a run are not trusted)
-    if inconc:
+    # A failed unwinding assertion or an exceeded model bound means the encoding was cut short:
+    # obligations reported as failed in such a run are not trusted and the run has no verdict -
+    # UNLESS CBMC reports undefined behaviour (a failed pointer/bounds check) located in a libjwt
+    # source file: that is a real defect of the code under test, and it is also what makes
+    # everything after it (loop bounds included) go haywire.
+    ub = [p for p in viol if (p.get('loc') or {}).get('file', '').startswith(B.REPO) and
+          re.match(r'(dereference failure|pointer |array |memcpy |memset |free )', p['desc'] or '')]
+    res['ub_in_repo'] = ub
+    if inconc and not ub:
         res['status'] = 'inconclusive'
     elif viol:
         res['status'] = 'violation'
+        if ub:
+            res['violations'] = ub + [p for p in viol if p not in ub]
     else:
         # Unreached witnesses do not change the verdict (on a modified tree a path may legitimately
         # have become unreachable, and the property then holds on it trivially); they are printed
@@ -234,5 +244,11 @@ def classify(res, q):
 def run_all(bld, queries, jobs=None):
     # SAT solving is single-threaded: one process per query, as many as cores (capped by memory)
     jobs = jobs or min(16, max(1, len(queries)))
+    import sys
+    def one(q):
+        r = run_query(bld, q)
+        sys.stderr.write('[%s] %s %s %.0fs\n' % (time.strftime('%H:%M:%S'), r['name'], r['status'], r.get('wall_s', 0)))
+        sys.stderr.flush()
+        return r
     with ThreadPoolExecutor(max_workers=jobs) as ex:
-        return list(ex.map(lambda q: run_query(bld, q), queries))
+        return list(ex.map(one, queries))
